@@ -54,15 +54,14 @@ macro_rules! ops_any {
     ($ds:expr, $act:expr, $o:expr, $L:ty, $obs:ident, $wl:tt) => {{
         let ds = $ds;
         match $act {
-            Act::Shuffle { script, .. } => {
-                let mut rng = ScriptRng::new(shuffle_draws(ds.nsamples(), script));
+            Act::Shuffle { .. } => {
+                let mut rng = script_rng($act, ds.nsamples(), ds.nfeatures());
                 let r = ds.shuffle(&mut rng);
                 $o.outs.push($obs(&r));
                 $o.rng_exact = Some(rng.exact());
             }
-            Act::BootSamples { m, items, script, .. } => {
-                let n = ds.nsamples();
-                let mut rng = ScriptRng::new(script.iter().map(|&k| (k, n)).collect());
+            Act::BootSamples { m, items, .. } => {
+                let mut rng = script_rng($act, ds.nsamples(), ds.nfeatures());
                 {
                     let mut it = ds.bootstrap_samples(*m, &mut rng);
                     for _ in 0..*items {
@@ -72,9 +71,8 @@ macro_rules! ops_any {
                 }
                 $o.rng_exact = Some(rng.exact());
             }
-            Act::BootFeatures { q, items, script, .. } => {
-                let f = ds.nfeatures();
-                let mut rng = ScriptRng::new(script.iter().map(|&k| (k, f)).collect());
+            Act::BootFeatures { q, items, .. } => {
+                let mut rng = script_rng($act, ds.nsamples(), ds.nfeatures());
                 {
                     let mut it = ds.bootstrap_features(*q, &mut rng);
                     for _ in 0..*items {
@@ -84,15 +82,22 @@ macro_rules! ops_any {
                 }
                 $o.rng_exact = Some(rng.exact());
             }
-            Act::Boot { m, q, script, .. } => {
-                let (n, f) = (ds.nsamples(), ds.nfeatures());
-                let mut rng = ScriptRng::new(script.iter().enumerate().map(|(i, &k)| (k, if i < *m { n } else { f })).collect());
+            Act::Boot { m, q, .. } => {
+                let mut rng = script_rng($act, ds.nsamples(), ds.nfeatures());
                 {
                     let mut it = ds.bootstrap((*m, *q), &mut rng);
                     let r = it.next().unwrap();
                     $o.outs.push($obs(&r));
                 }
                 $o.rng_exact = Some(rng.exact());
+            }
+            Act::DrawCoverage { features, .. } => {
+                let range = if *features { ds.nfeatures() } else { ds.nsamples() };
+                for d in 0..range {
+                    let mut rng = ScriptRng::new(vec![(d, range); 2], false);
+                    let r = if *features { ds.bootstrap_features(2, &mut rng).next().unwrap() } else { ds.bootstrap_samples(2, &mut rng).next().unwrap() };
+                    $o.outs.push($obs(&r));
+                }
             }
             Act::WithLabels { labels, .. } => with_labels_arm!($wl, ds, labels, $o, $L, $act),
             Act::MapTargets { .. } => {
@@ -425,6 +430,7 @@ pub fn applicable(ltype: &str, act: &Act) -> bool {
             _ => true,
         },
         "i64" => !matches!(act, Act::WithLabels { .. } | Act::OneVsAll { .. }),
+        "string" if matches!(act, Act::DrawCoverage { .. }) => false,
         "string" => matches!(
             act,
             Act::SplitOwned { .. } | Act::SplitView { .. } | Act::View | Act::OneVsAll { .. } | Act::MapTargets { .. } | Act::SampleIter { .. } | Act::TargetIter { .. } | Act::FeatureIter { .. } | Act::IntoSingleTarget
